@@ -47,7 +47,11 @@ def cells(tier):
 @st.composite
 def cell_cases(draw, cell):
     route, domain, method, strict = cell
-    return {"cell": cell, "lb": draw(st.sampled_from([None, -2, 0, 1, 0.5, -1.5])), "ub": draw(st.sampled_from([None, 5, 3, 8, 2.5, 3.7])),
+    lb = draw(st.sampled_from([None, -2, 0, 1, 0.5, -1.5]))
+    ub = draw(st.sampled_from([None, 5, 3, 8, 2.5, 3.7]))
+    if lb is not None and draw(st.integers(0, 4)) == 0:
+        ub = lb   # a variable pinned by its bounds is still an integer variable
+    return {"cell": cell, "lb": lb, "ub": ub,
             "only_view": draw(st.integers(0, 2)) == 0,
             "family": "lp" if method in LP_ONLY else draw(st.sampled_from(["lp", "qp"])),
             "where": draw(st.sampled_from(["objective", "constraint", "both"])),
